@@ -4,6 +4,7 @@ package main
 
 import (
 	"encoding/base64"
+	"encoding/json"
 	"fmt"
 	"math/big"
 	"sort"
@@ -552,6 +553,10 @@ func sArr(xs ...sx.Sx) sx.Sx { return sx.L(append([]sx.Sx{sx.A("a")}, xs...)...)
 func (g *kgen) record() sx.Sx {
 	r := g.r
 	nested := `{"k":[1,2],"m":{"x":"y"},"q":5}`
+	if r.Chance(50) {
+		// selectors after json() that match several values which disagree (the helper yields the first)
+		nested = `{"k":[1,2],"m":{"x":"y","q":7},"q":5,"n":{"x":"z","k":[3]}}`
+	}
 	fields := []sx.Sx{}
 	add := func(k string, v sx.Sx) {
 		if r.Chance(85) {
@@ -753,6 +758,31 @@ func genKflFuzz(r *Rand, tier string, emit func(sx.Sx)) {
 		"http and redis and http2", "a == 1e999", "a == 0x10", "a == 1_000", "a == .5.5", "\x00", "\xff\xfe", "日本語 == \"日本語\"", "a == \"\\\"\""}
 	for _, f := range fixed {
 		emitQ(f)
+	}
+	// XML documents of every shape under every xml() query and redaction: with and without a
+	// declaration, on one line or several, plain and base64, with attributes, CDATA, namespaces, empty
+	xmlDocs := []string{
+		`<?xml version="1.0"?><r a="b"><s>t</s><s u="v">w</s></r>`,
+		"<?xml version=\"1.0\" encoding=\"UTF-8\"?>\n<r a=\"b\"><s>t</s><s u=\"v\">w</s></r>",
+		"<?xml version=\"1.0\"?>\r\n<r>\r\n  <s>t</s>\r\n</r>\r\n",
+		`<r a="b"><s>t</s><s u="v">w</s></r>`, `<r/>`, `<r></r>`, `<?xml version="1.0"?>`, `<?xml`, `<?`, `<r><![CDATA[x<y]]></r>`,
+		`<soap:Envelope xmlns:soap="u"><soap:Body><card>4111</card></soap:Body></soap:Envelope>`,
+		`<?xml version="1.0"?><envelope><body><card>4111</card></body></envelope>`, ``, `<`, `<r>`, "<r>\n<s>1</s>\n</r>",
+	}
+	xmlQueries := []string{`redact("x.xml().r")`, `redact("x.xml().r.s")`, `redact("x.xml().nosuch")`, `redact("x.xml().r.nosuch")`, `redact("x.xml()")`,
+		`redact("x.xml().envelope")`, `redact("x.xml().envelope.body.card")`, `redact("x.xml().r.s[0]")`, `redact("x.xml().r.-a")`, `redact("x.xml()..s")`,
+		`redact("x.xml().r", "x.xml().r.s")`, `x.xml().r.s == "t"`, `x.xml().r == "t"`, `x.xml().envelope.body.card == "4111"`, `x.xml().r.s[1] == "w"`}
+	for _, d := range xmlDocs {
+		for _, enc := range []bool{false, true} {
+			v := d
+			if enc {
+				v = base64.StdEncoding.EncodeToString([]byte(d))
+			}
+			rec, _ := json.Marshal(map[string]interface{}{"x": v, "a": 1})
+			for _, q := range xmlQueries {
+				emit(sx.L(sx.S(q), sx.S(string(rec))))
+			}
+		}
 	}
 	// macro names inside literals of growing length (expansion must terminate, in linear time)
 	for _, n := range []int{10, 20, 26, 40, 120} {
